@@ -155,9 +155,6 @@ func c11Make(src string, workers int, fails []bool, twoSinks bool) func() (func(
 					probs = append(probs, fmt.Sprintf("event %v: %s error report {%s}, expected {%s}", ev.id, kind, strings.Join(got, ","), want))
 				}
 			}
-			if len(e.Races) > 0 {
-				probs = append(probs, "data race on instrumented variable: "+strings.Join(e.Races, " ; "))
-			}
 			if len(probs) > 0 {
 				sort.Strings(probs)
 				key := probs[0]
